@@ -67,11 +67,14 @@ def trimLeftBlanks (s : GoSlice) : GoSlice :=
 
 /-- does the heuristic reach the PEM case's slice expression? (non-empty input, no recognised
 content type, not taken for a JWK, longer than `bound`) -/
-def sniffReached (bound : Nat) (raw : Bytes) (contentType : String) : Bool :=
-  raw.length != 0 && !(contentType == "application/json")
-    && !(contentType == "application/x-pem-file" || contentType == "application/pkcs8")
-    && !(raw.head? == some 123 && raw.length != 16 && raw.length != 24 && raw.length != 32)
-    && decide (raw.length > bound)
+def sniffReached (bound : Nat) : Bytes → String → Bool
+  | [], _ => false
+  | c :: rest, contentType =>
+    let l := rest.length + 1
+    !(contentType == "application/json")
+      && !(contentType == "application/x-pem-file" || contentType == "application/pkcs8")
+      && !(c == 123 && l != 16 && l != 24 && l != 32)
+      && decide (l > bound)
 
 /-- `ParseKey`'s heuristic with the guard `len(raw) > bound` and the slice `(view raw)[0:hi]`. -/
 def parseKeyBranchOn (bound hi : Nat) (fill : UInt8) (view : GoSlice → GoSlice) (raw : GoSlice)
